@@ -364,6 +364,33 @@ def judge_trace(module, trace_path, workers=8, timeout=1800, cfg=None, env=None)
     events = [json.loads(l) for l in open(trace_path)]
     if not events:
         raise Inconclusive("empty trace " + trace_path)
+    # TLC holds the whole trace as values (about 50 times the size of the text): long traces are judged in parts
+    size = os.path.getsize(trace_path)
+    part_max = 40000 if size / max(1, len(events)) < 800 else 12000
+    if len(events) > part_max or size > 60e6:
+        nparts = max((len(events) + part_max - 1) // part_max, int(size // 40e6) + 1)
+        per = (len(events) + nparts - 1) // nparts
+        lines = open(trace_path).readlines()
+        all_mism, total = [], None
+        for k in range(nparts):
+            chunk = lines[k * per:(k + 1) * per]
+            if not chunk:
+                continue
+            pp = "%s.part%d" % (trace_path, k)
+            with open(pp, "w") as f:
+                f.writelines(chunk)
+            _, mism, r = judge_trace(module, pp, workers=workers, timeout=timeout, cfg=cfg, env=env)
+            os.remove(pp)
+            for m in mism:
+                m[1] += k * per
+            all_mism += mism
+            if total is None:
+                total = r
+            else:
+                total.distinct += r.distinct
+                total.generated += r.generated
+                total.wall += r.wall
+        return events, all_mism, total
     e = {"TRACE": os.path.abspath(trace_path)}
     if env:
         e.update(env)
